@@ -206,6 +206,40 @@ def run(ctx):
                     ctx.ob("R-WRITERS", "C05.4", f, "a stored log-prior is the model's prior evaluator applied to the same array", ok, f"`{src(st)[:90]}`", node=st)
     ctx.require(n_l >= 8 and n_p >= 5, f"too few logL/logP stores found ({n_l}, {n_p})")
     ctx.floor("C05.4", 14)
+    # ---- C05.5 reading results does not change them ------------------------------------------------------
+    from ..q import guard_facts as _gf, attr_stores, is_self_attr
+    n_prop = 0
+    for f in prog.all_functions:
+        if not (f.is_property and f.cls is not None):
+            continue
+        n_prop += 1
+        fa = None
+        for n in walk_no_nested(f.node):
+            tgt = None
+            if isinstance(n, ast.Attribute) and isinstance(n.ctx, (ast.Store, ast.Del)) and isinstance(n.value, ast.Name) and n.value.id == "self":
+                tgt = n.attr
+            elif isinstance(n, ast.Subscript) and isinstance(n.ctx, (ast.Store, ast.Del)) and is_self_attr(n.value):
+                tgt = n.value.attr
+            elif isinstance(n, ast.Call) and isinstance(n.func, ast.Attribute) and n.func.attr in ("append", "extend", "insert", "pop", "update", "clear", "sort") and is_self_attr(n.func.value):
+                tgt = n.func.value.attr
+            if tgt is None:
+                continue
+            fa = fa or FA(f)
+            st = fa.cfg.stmt_of(n) or n
+            try:
+                facts = [(src(e), t) for e, t in _gf(fa, fa.cfg.id_of(st))]
+            except Exception:
+                facts = []
+            lazy = (f"self.{tgt} is None", True) in facts and isinstance(n, ast.Attribute)
+            ctx.ob("R-PURE", "C05.5", f, "a property getter only writes an attribute as a lazy cache fill (under `self.<attr> is None`): reading a result never changes the state it is computed from", lazy, f"`{src(st)[:90]}` writes self.{tgt} under {facts}", node=n)
+    ctx.ob("R-PURE", "C05.5", "nessai", "purity rule ran over every property getter of the package", True, f"{n_prop} property getters")
+    stc = prog.cls("nessai.evidence:_NSIntegralState")
+    writers = {"logZ": {"__init__", "increment", "finalise"}, "logw": {"__init__", "increment"}, "logLs": {"__init__", "increment"}, "log_vols": {"__init__", "increment"}, "info": {"__init__", "increment"}, "nlive": {"__init__", "increment"}}
+    for attr_, who in writers.items():
+        sites = [(fn, n, k) for fn, n, k in attr_stores(prog, attr_, [stc])]
+        sites += [(fn, n, "call") for fn in stc.methods.values() for n in walk_no_nested(fn.node) if isinstance(n, ast.Call) and isinstance(n.func, ast.Attribute) and n.func.attr in ("append", "extend", "insert", "pop", "clear") and is_self_attr(n.func.value, attr_)]
+        for fn, n, k in sites:
+            ctx.ob("R-WRITERS", "C05.5", fn, f"the integrator's `{attr_}` is written only by {sorted(who)}", fn.name in who, f"`{src(n)[:60]}` ({k})", node=n)
     ctx.assumptions += ["numeric equality on real runs and sample counts are not decided; only which state object each reported quantity is read from"]
 
 
@@ -231,6 +265,7 @@ MUTANTS = [
     {"id": "ins-logz-not-mean", "file": _E, "old": "        return self._logZ - np.log(self._n)", "new": "        return self._logZ", "expect": "log Z = logsumexp"},
     {"id": "ins-n-counts-nested-only", "file": _E, "old": "        self._n = self._weights.size", "new": "        self._n = self._weights_ns.size", "expect": "INS evidence state"},
     {"id": "ins-one-pass-estimator-differs", "file": _E, "old": '    return logsumexp(samples["logL"] + samples["logW"]) - np.log(len(samples))', "new": '    return logsumexp(samples["logL"] + samples["logW"])', "expect": "one-pass estimator"},
+    {"id": "getter-overwrites-evidence", "file": _E, "edits": [(_E, "        log_Z = log_integrate_log_trap(log_L, log_vols)\n", "        self.logZ = log_integrate_log_trap(log_L, log_vols)\n"), (_E, "        log_post_w = log_L[1:-1] + log_w[:-1] - log_Z\n", "        log_post_w = log_L[1:-1] + log_w[:-1] - self.logZ\n")], "expect": "C05.5"},
     {"id": "likelihood-field-from-other-array", "file": _I, "old": '        new_points["logL"] = self.model.batch_evaluate_log_likelihood(\n            new_points,\n            unit_hypercube=True,\n        )', "new": '        new_points["logL"] = self.model.batch_evaluate_log_likelihood(\n            new_points[::-1],\n            unit_hypercube=True,\n        )', "expect": "stored log-likelihood is the model's evaluator"},
     {"id": "likelihood-field-overwritten", "file": _I, "old": "        self.draw_samples_time += datetime.datetime.now() - st\n        return new_points, log_q", "new": "        new_points[\"logL\"] = np.nan_to_num(new_points[\"logL\"])\n        self.draw_samples_time += datetime.datetime.now() - st\n        return new_points, log_q", "expect": "stored log-likelihood is the model's evaluator"},
 ]
